@@ -242,4 +242,102 @@ theorem dequeue_spec {s : HH} (hwf : WF lt s) (hpos : 0 < s.count) :
       · rintro ⟨j, h1, h2, _⟩; simp at h2; omega
       · rintro ⟨j, h1, h2, h3, _⟩; omega
 
+/-- the final sift of `remove` / `reprioritize`: down or up, whichever the comparison says -/
+theorem sift_either (s1 : HH) (k : Nat) (down : Bool) (Q : HH → Prop) (p : Pre s1) (hk : InR s1.count k)
+    (hod : down = true → DownOrd lt s1.tag s1.count k) (hou : down = false → UpOrd lt s1.tag s1.count k)
+    (hQ : ∀ s2, Post lt s1 s2 → Q s2) :
+    ∃ s2, (if down = true then heapDown lt s1 k else heapUp lt s1 k) = .ok s2 ∧ Q s2 := by
+  cases down with
+  | true =>
+    obtain ⟨s2, hrun, q⟩ := heapDown_tail (lt := lt) p hk (hod rfl)
+    exact ⟨s2, by simpa using hrun, hQ s2 q⟩
+  | false =>
+    obtain ⟨s2, hrun, q⟩ := heapUp_tail (lt := lt) p hk (hou rfl)
+    exact ⟨s2, by simpa using hrun, hQ s2 q⟩
+
+theorem remove_tail (s1 : HH) (k : Nat) (down : Bool) (Q : HH → Prop) (p : Pre s1) (hk : InR s1.count k)
+    (hod : down = true → DownOrd lt s1.tag s1.count k) (hou : down = false → UpOrd lt s1.tag s1.count k)
+    (hQ : ∀ s2, Post lt s1 s2 → Q s2) :
+    ∃ s2, (do let s2 ← (if down = true then heapDown lt s1 k else heapUp lt s1 k)
+              Except.ok (s2, true)) = .ok (s2, true) ∧ Q s2 := by
+  obtain ⟨s2, hrun, q⟩ := sift_either (lt := lt) s1 k down Q p hk hod hou hQ
+  rw [hrun]
+  exact ⟨s2, rfl, q⟩
+
+omit sw in
+/-- `remove` of a key that no live entry carries changes nothing -/
+theorem remove_absent {s : HH} (hwf : WF lt s) {key : Nat} (hk0 : key ≠ 0)
+    (habs : ∀ i, InR s.count i → (s.tag i).key ≠ key) : remove lt s key = .ok (s, false) := by
+  obtain ⟨he1, he31, hei1, hei2, hsz, hhs, hc, w, ho⟩ := (WF_iff lt s).1 hwf
+  unfold remove
+  rw [if_neg hk0]
+  split
+  · rfl
+  · rw [findIndex_absent s hhs (by omega) w key habs]
+    rfl
+
+/-- `remove` of the key of live entry `i` removes exactly that entry -/
+theorem remove_present {s : HH} (hwf : WF lt s) {i : Nat} (hi : InR s.count i) :
+    ∃ s', remove lt s (s.tag i).key = .ok (s', true) ∧ WF lt s' ∧ s'.count = s.count - 1 ∧
+      s'.exp = s.exp ∧ s'.expInit = s.expInit ∧ s'.counter = s.counter ∧
+      ∀ x, Live s'.tag s'.count x ↔ LiveExcept s.tag s.count i x := by
+  obtain ⟨he1, he31, hei1, hei2, hsz, hhs, hc, w, ho⟩ := (WF_iff lt s).1 hwf
+  have hi1 := hi.1; have hi2 := hi.2
+  have hcr : InR s.count s.count := ⟨by omega, Nat.le_refl _⟩
+  have bi := w.back i hi
+  have bc := w.back _ hcr
+  rw [HH.tag_eq] at bi bc
+  have hi0 : i ≠ 0 := by omega
+  unfold remove
+  rw [if_neg (w.keyOk i hi).1, if_neg (by omega), findIndex_live s hhs (by omega) w hi, ok_bind, if_neg hi0]
+  rw [HH.tag_eq]
+  dsimp only
+  rw [rdHeap_ok (by omega), ok_bind, setIdx_ok (by omega), ok_bind]
+  by_cases hic : i = s.count
+  · rw [if_pos hic]
+    subst hic
+    have w1 := w.removeLast (by omega : 1 ≤ s.count)
+    rw [HH.tag_eq, HH.slot_eq] at w1
+    refine ⟨_, rfl, ?_, rfl, rfl, rfl, rfl, ?_⟩
+    · rw [WF_iff]
+      refine ⟨he1, he31, hei1, hei2, hsz, by simp [hhs], (by show s.count - 1 ≤ 2 ^ s.exp; omega), ?_,
+        ho.shrink (Nat.sub_le _ _)⟩
+      show WFS (tg _) (sl _) (InR (s.count - 1)) s.exp
+      rw [sl_set]
+      exact w1
+    · intro x
+      exact Live.removeLast (by omega) x
+  · rw [if_neg hic, rdHeap_ok (by omega), ok_bind, wrHeap_ok (by omega), ok_bind,
+      setIdx_ok (by simp; omega), ok_bind]
+    have w1 := w.removeAt hi hic
+    rw [HH.tag_eq, HH.slot_eq] at w1
+    have hk' : InR (s.count - 1) i := ⟨hi1, by omega⟩
+    apply remove_tail
+    · refine ⟨he1, he31, hei1, hei2, by simp [hsz], by simp [hhs], (by show s.count - 1 ≤ 2 ^ s.exp; omega), ?_⟩
+      show WFS (tg _) (sl _) (InR (s.count - 1)) s.exp
+      rw [tg_set, sl_set, sl_set]
+      exact w1
+    · exact hk'
+    · intro hdown
+      show DownOrd lt (tg _) (s.count - 1) i
+      rw [tg_set]
+      apply Ord.replace_down ho (by omega) hk'
+      intro h2
+      exact lt_D hdown (ho i h2 hi2)
+    · intro hup
+      show UpOrd lt (tg _) (s.count - 1) i
+      rw [tg_set]
+      apply Ord.replace_up ho (by omega) hk'
+      intro x h2 hc' hx
+      have := ho x h2 (by omega)
+      rw [hx] at this
+      exact lt_B this hup
+    · intro s2 q
+      refine ⟨q.1, q.2.1, q.2.2.1, q.2.2.2.1, q.2.2.2.2.1, ?_⟩
+      intro x
+      rw [q.2.2.2.2.2 x]
+      show Live (tg _) (s.count - 1) x ↔ _
+      rw [tg_set]
+      exact Live.removeAt hi hic x
+
 end CimbaModel.HashHeap
